@@ -61,6 +61,24 @@ def run(ctx, repo):
             ctx.finding('R1', '%s::%s.%s::exactly one unconditional log record' % (HJ, COMP, m), HJ, f.lineno,
                         '%s appends %d records (%d unconditionally at the top level of its body); replay needs exactly one per '
                         'successful call' % (m, len(appends_all), len(appends_top)))
+        # the record is written only after everything that can refuse the call has run
+        if appends_top:
+            ai = [i for i, st in enumerate(f.body) if isinstance(st, ast.Expr) and st.value is appends_top[0]][0]
+            later_refusal = None
+            for st in f.body[ai + 1:]:
+                for x in ast.walk(st):
+                    if isinstance(x, ast.Raise):
+                        later_refusal = x
+                    if isinstance(x, ast.Call) and (call_name(x) == 'check_started' or (call_name(x) == m and isinstance(x.func, ast.Attribute)
+                                                                                     and not (isinstance(x.func.value, ast.Name) and x.func.value.id == 'self'))):
+                        later_refusal = x
+            if later_refusal is not None:
+                ctx.finding('R1', '%s::%s.%s::log record written before %s' % (HJ, COMP, m, unparse(later_refusal)[:40]), HJ, appends_top[0].lineno,
+                            '%s appends its log record before %s, which can still refuse the call: a refused call leaves a phantom record, '
+                            'so replaying the log raises and .trials shows a trial that is on no card' % (m, unparse(later_refusal)[:60]),
+                            'a pass refused at athlete level (height already cleared), then from_actions()')
+            else:
+                ctx.ok('R1', '%s: nothing can refuse the call after the log record is written' % m)
         # nothing may return before the log on the success path
         early = [n for n in ast.walk(f) if isinstance(n, ast.Return) and appends_top and n.lineno < appends_top[0].lineno]
         if early:
@@ -168,6 +186,25 @@ def run(ctx, repo):
                         'bib_trial(%r) calls %s; the letter is written by %s' % (want, dispatch.get(want), m))
         else:
             ctx.ok('R2', '%s <-> %r agree in action_letter, Jumper.%s and bib_trial' % (m, want, m))
+    # explicit pass marks aside: the card import skips '-', so a live pass may leave nothing behind that the import would not
+    # reproduce: only the card letter and the per-height flag `dismissed` (which set_bar_height resets)
+    pw = set()
+    for n in ast.walk(Jm['passed']):
+        if isinstance(n, (ast.Assign, ast.AugAssign)):
+            for t in (n.targets if isinstance(n, ast.Assign) else [n.target]):
+                for x in (t.elts if isinstance(t, ast.Tuple) else [t]):
+                    if isinstance(x, ast.Attribute):
+                        pw.add(x.attr)
+                    elif isinstance(x, ast.Subscript) and isinstance(x.value, ast.Attribute):
+                        pw.add(x.value.attr + '[]')
+    extra = pw - {'dismissed', 'attempts_by_height[]'}
+    if extra:
+        ctx.finding('R2', '%s::Jumper.passed::writes %s' % (HJ, sorted(extra)), HJ, Jm['passed'].lineno,
+                    "Jumper.passed changes %s besides the card letter and the per-height flag: importing the exported card skips '-' marks, "
+                    'so the re-imported competition differs (e.g. the count of consecutive failures across a pass)' % sorted(extra),
+                    'xx- then x at the next height, to_matrix() then from_matrix()')
+    else:
+        ctx.ok('R2', "Jumper.passed writes only the card letter and dismissed (what a card import with '-' skipped reproduces)")
     # to_matrix exports the card entries as they are; from_matrix replays through bib_trial
     tm, fm = Cm.get('to_matrix'), Cm.get('from_matrix')
     if tm is None or fm is None:
